@@ -319,13 +319,19 @@ func (evm *EVM) Call(ctx context.Context, caller ethvm.ContractRef, addr common.
 		if len(code) == 0 {
 			ret, err = nil, nil // gas is unchanged
 		} else {
+			// Data is a required field of the join point messages: nil (empty calldata) cannot be marshalled
+			jpData := input
+			if jpData == nil {
+				jpData = []byte{}
+			}
+
 			if evm.IsExecuteJP {
 				preCallResult := djpm.AspectInstance().PreContractCall(ctx, caller.Address(), addr, input, int64(blockNum), gas, value, &types.PreContractCallInput{
 					Call: &types.PreExecMessageInput{
 						From:  caller.Address().Bytes(),
 						To:    addr.Bytes(),
 						Index: &currentCall.Index,
-						Data:  input,
+						Data:  jpData,
 						Value: value.Bytes(),
 						Gas:   &gas,
 					},
@@ -362,7 +368,7 @@ func (evm *EVM) Call(ctx context.Context, caller ethvm.ContractRef, addr common.
 						From:  caller.Address().Bytes(),
 						To:    addr.Bytes(),
 						Index: &currentCall.Index,
-						Data:  input,
+						Data:  jpData,
 						Value: value.Bytes(),
 						Gas:   &gas,
 						Ret:   ret,
